@@ -209,8 +209,11 @@ def main(argv):
         c['evaluations'] = sum(o.checks for o in results)
         c['distinct_nontrivial'] = len([o for o in results if o.status == 'discharged'])
         c['rule'] = 'one evaluation = one verifier-level check (assertion/overflow/bounds/postcondition) decided symbolically; distinct = obligations discharged'
-    os.makedirs(os.path.join(ROOT, 'evidence'), exist_ok=True)
-    json.dump(ev, open(os.path.join(ROOT, 'evidence', pid + '.json'), 'w'), indent=1)
+    # evidence is only ever written from a run against /repo itself; development runs against a scratch
+    # worktree (DV_REPO=...) leave their record in the build directory
+    evdir = os.path.join(ROOT, 'evidence') if REPO == '/repo' else os.path.join(BUILD, 'evidence_scratch')
+    os.makedirs(evdir, exist_ok=True)
+    json.dump(ev, open(os.path.join(evdir, pid + '.json'), 'w'), indent=1)
     print('%s tier=%s: %d proof obligations (%d discharged), %d bounded (%d passed), %d undecided, %d violations, %d known; %.1fs' % (
         pid, tier, len(proof_obls), ev['coverage']['discharged'], len(bounded), ev['coverage']['bounded_passed'],
         len(undec), len(violations), len(known_hits), wall))
